@@ -558,4 +558,14 @@ def run(chk):
     # provided default (open_push of nothing), or children of an unsampled root are sampled afresh
     common.wrapper_family_rule(chk, P, "C18", CTXT, 6, forward=False, allow={
         ("emit_core::runtime::AssertInternal<", "open_disabled"): "the internal runtime's context is never the traceparent context"})
+    from . import shapes
+    shapes.exclude_props_polarity(chk, P, "C18.R5:exclude-props-polarity")
+    _is_some = lambda fld: (lambda o, b: o[0] == "call" and o[1].callee.get("name") == "is_some" and fld in o_str(b.origin(o[1].args[0])))
+    shapes.conjunction_rule(chk, P, "C18.R1:is_valid", "a traceparent is valid only with both a trace id and a span id", TP + "Traceparent::is_valid",
+                            [("trace_id.is_some()", _is_some("trace_id")), ("span_id.is_some()", _is_some("span_id"))],
+                            "a header with one id missing would count as an active trace: the sampler is skipped for it and children inherit a half-empty context")
+    shapes.conjunction_rule(chk, P, "C18.R6:is_parent_of", "an active traceparent is the parent of incoming props only if it has a trace id and that id equals theirs",
+                            TP + "ActiveTraceparent::is_parent_of",
+                            [("trace_id.is_some()", _is_some("trace_id")), ("trace_id == incoming", lambda o, b: o[0] == "call" and o[1].callee.get("name") == "eq")],
+                            "a span of another trace (or of none) would keep the active span as its parent")
     return chk
